@@ -148,7 +148,8 @@ fn check_wire(cfg: Config) {
     }
     assert!(sink.slot[2] == spec_varint_enc(payload as u64)); // Length == bytes that follow
     let total = 1 + 1 + sink.slot[2].1 + payload;
-    assert!(total <= 64); // StreamType::MAX_ENCODED_SIZE + Frame::MAX_ENCODED_SIZE = WRITE_BUF_ENCODE_SIZE
+    // the stack buffer of WriteBuf: WRITE_BUF_ENCODE_SIZE = StreamType::MAX_ENCODED_SIZE + Frame::MAX_ENCODED_SIZE (h3/src/stream.rs)
+    assert!(total <= crate::proto::stream::StreamType::MAX_ENCODED_SIZE + crate::proto::frame::Frame::<crate::proto::frame::PayloadLen>::MAX_ENCODED_SIZE);
 }
 
 // vp: props=C13,C14,C06; tag=C13.config.wire; kind=complete; tier=thorough
@@ -166,7 +167,7 @@ fn c13_config_wire_nogrease() {
     kani::cover!(cfg.settings.max_field_section_size == 16384 && cfg.settings.enable_datagram);
 }
 
-// vp: props=C13,C14,C06; tag=C13.config.wire; kind=complete; tier=thorough
+// vp: props=C13,C14,C06; tag=C13.config.wire; kind=complete; tier=quick
 // grease on (any id the generator can return), every combination of the booleans, both sizes over [0, 2^62)
 #[kani::proof]
 #[kani::stub(fastrand::u64, stub_fastrand_u64)]
